@@ -473,7 +473,7 @@ def decorate(rng, td, o):
                     s = f.sem.get(trait) or {"carrier": rng.choice(carrier_opts)}
                     taken = {ISIZE_MIN + g.slot for g in live if g is not f and g.sem.get(trait, {}).get("rank") is None}
                     taken |= {g.sem[trait]["rank"] for g in live if g is not f and g.sem.get(trait, {}).get("rank") is not None}
-                    cands = [ISIZE_MIN + p for p in range(1, len(v.fields) + 3) if ISIZE_MIN + p not in taken]
+                    cands = [ISIZE_MIN + p for p in range(0 if f.slot == 0 else 1, len(v.fields) + 3) if ISIZE_MIN + p not in taken]
                     cands += [r for r in (ISIZE_MAX, ISIZE_MAX - 1) if r not in taken]
                     free_holes = [h for h in holes if h not in taken]
                     if free_holes and rng.random() < 0.7:
